@@ -167,7 +167,7 @@ def crash_scenario(ctx, seed, quick):
             copy_tree(base.d, snap)
             # counting pass
             cnt = os.path.join(base.d, ".crashcount")
-            rc, so, se = base.run(["-j%d" % j], env={"VERIF_CRASH_POINT": "count:" + cnt})
+            rc, so, se = base.run(["-j%d" % j], env={"VERIF_CRASH_POINT": "count:" + cnt}, settle=True)
             hits = open(cnt).read().split() if os.path.exists(cnt) else []
             if rc != 0:
                 ctx.inconclusive += 1
@@ -187,7 +187,7 @@ def crash_scenario(ctx, seed, quick):
                     t.sc = sc
                     mf = open(t.path("build.ninja")).read()
                     log0 = parse_build_log(t.read(".ninja_log") or b"")[1]
-                    rc, so, se = t.run(["-j%d" % j], env={"VERIF_CRASH_POINT": "%s:%d" % (name, n)})
+                    rc, so, se = t.run(["-j%d" % j], env={"VERIF_CRASH_POINT": "%s:%d" % (name, n)}, settle=True)
                     ctx.evaluations += 1
                     rep = {"seed": seed, "point": name, "hit": n, "manifest": mf, "sources": sc["sources"]}
                     what = "scenario %d crash at %s#%d" % (seed, name, n)
@@ -298,6 +298,9 @@ def signal_scenario(ctx, seed):
                         os.kill(pid, signal.SIGKILL)
                     except OSError:
                         pass
+            # ... including commands the dead ninja had spawned that have not logged anything yet
+            e2e.session_kill(p.pid)
+            e2e.session_quiet(p.pid, 30.0)
             ctx.nontrivial((seed, "kill"))
             recover(ctx, t, sc, what, rep)
             return
